@@ -393,6 +393,15 @@ def cases(rng, tier):
         d = bases[rng.randrange(len(bases))]
         t, fam = malformed(rng, d)
         out.append((T("M", t, None, flags(rng) if rng.random() < 0.2 else 0), "mal-" + fam))
+    # more symbol names than one byte can count (257-320), in one description: every name must keep its own rules through load and dump.
+    # These cases come LAST: the alphabets of the driver process grow with them.
+    for k in range(6 if not thorough else 40):
+        nsy = rng.choice([257, 258, 300, 320]) if k else 257
+        fa = (k % 3 == 2)
+        st = [b"p", b"q", b"r"]
+        syms = [(b"s%d" % i, (rng.choice([0, 1]) if fa else rng.choice([0, 0, 0, 1, 2]))) for i in range(nsy)]
+        tr = [(tuple(rng.choice(st) for _ in range(a)), s, rng.choice(st)) for s, a in syms]
+        out.append((W(Desc(b"big", syms, st, [rng.choice(st)], tr), 0), "wf-large-alphabet"))
     return out
 
 def o1_case(d):
